@@ -100,17 +100,26 @@ Neighbors find_neighbors_covertree_impl(RandomAccessIterator begin, RandomAccess
     assert(end - begin == res.index);
     for (int i = 0; i < res.index; ++i)
     {
-        LocalNeighbors local_neighbors;
-        local_neighbors.reserve(k);
-
-        for (IndexType j = 1; j <= k; ++j) // j=0 is the query point
+        // res[i][0] is the query point; it is followed, in no particular order, by every point
+        // that is not farther from it than its k-th nearest one (the query point itself included,
+        // more than k points if distances tie): select the k-1 (k was incremented above) nearest others
+        const RandomAccessIterator query = res[i][0].iter_;
+        std::vector<std::pair<ScalarType, IndexType>> candidates;
+        candidates.reserve(res[i].index);
+        for (int j = 1; j < res[i].index; ++j)
         {
-            // The actual query point is found as a neighbor, just ignore it
-            if (res[i][j].iter_ - begin == res[i][0].iter_ - begin)
+            if (res[i][j].iter_ == query)
                 continue;
-            local_neighbors.push_back(res[i][j].iter_ - begin);
+            candidates.push_back(std::make_pair(callback.distance(query, res[i][j].iter_), res[i][j].iter_ - begin));
         }
-        neighbors[res[i][0].iter_ - begin] = local_neighbors;
+        const size_t n_selected = std::min(static_cast<size_t>(k - 1), candidates.size());
+        std::partial_sort(candidates.begin(), candidates.begin() + n_selected, candidates.end());
+
+        LocalNeighbors local_neighbors;
+        local_neighbors.reserve(n_selected);
+        for (size_t j = 0; j < n_selected; ++j)
+            local_neighbors.push_back(candidates[j].second);
+        neighbors[query - begin] = local_neighbors;
     };
     return neighbors;
 }
